@@ -1024,6 +1024,77 @@ func init() {
 	}
 }
 
+func init() {
+	// maps.clone is linknamed to the runtime: a shallow copy of the map behind the interface
+	externals["maps.clone"] = func(fr *frame, a []value) value {
+		it, ok := a[0].(iface)
+		if !ok {
+			panic(pathAbort{"unsupported: maps.clone of a non-interface operand"})
+		}
+		switch m := it.v.(type) {
+		case map[value]value:
+			if m == nil {
+				return it
+			}
+			out := make(map[value]value, len(m))
+			for k, e := range m {
+				out[k] = copyVal(e)
+			}
+			return iface{it.t, out}
+		case *hashmap:
+			if m == nil {
+				return it
+			}
+			out := &hashmap{keyType: m.keyType, table: map[int]*entry{}}
+			for _, b := range m.entries() {
+				for e := b; e != nil; e = e.next {
+					out.insert(e.key, copyVal(e.value))
+				}
+			}
+			return iface{it.t, out}
+		}
+		panic(pathAbort{"unsupported: maps.clone operand"})
+	}
+	externals["errors.As"] = func(fr *frame, a []value) value {
+		err := a[0]
+		tgt, ok := a[1].(iface)
+		if !ok || tgt.t == nil {
+			panic(targetPanic{iface{fr.i.runtimeErrorString, "errors: target cannot be nil"}})
+		}
+		pt, ok := tgt.t.Underlying().(*types.Pointer)
+		cell, _ := tgt.v.(*value)
+		if !ok || cell == nil {
+			panic(targetPanic{iface{fr.i.runtimeErrorString, "errors: target must be a non-nil pointer"}})
+		}
+		want := pt.Elem()
+		for depth := 0; depth < 20; depth++ {
+			ie, ok := err.(iface)
+			if !ok || ie.t == nil {
+				return false
+			}
+			if it, isI := want.Underlying().(*types.Interface); isI {
+				if types.Implements(ie.t, it) {
+					*cell = ie
+					return true
+				}
+			} else if types.Identical(ie.t, want) {
+				*cell = ie.v
+				return true
+			}
+			sel := fr.i.prog.MethodSets.MethodSet(ie.t).Lookup(nil, "Unwrap")
+			if sel == nil {
+				return false
+			}
+			m := fr.i.prog.MethodValue(sel)
+			if m == nil {
+				return false
+			}
+			err = call(fr.i, fr, token.NoPos, m, []value{ie.v})
+		}
+		return false
+	}
+}
+
 // numError builds the *strconv.NumError that strconv returns (so that errors.Is / type
 // switches on it behave as with the real package).
 func numError(fr *frame, fn, num string, native error) value {
